@@ -236,7 +236,12 @@ func drawConfig(c *kernel.Ctx, mode Mode) Config {
 	}
 	// voting powers: unequal
 	cfg.Powers = make([]int64, cfg.N)
-	switch t.Int(3) {
+	switch t.Int(4) {
+	case 3:
+		// all ones: floor(total*2/3) is reachable by a subset for every N
+		for i := range cfg.Powers {
+			cfg.Powers[i] = 1
+		}
 	case 0:
 		for i := range cfg.Powers {
 			cfg.Powers[i] = 10
